@@ -1,0 +1,14 @@
+//go:build verif
+
+// Contracts for the deductive verifier in /verif (govc). Comments only.
+
+package httplog
+
+// The short URL form of a log line (C19) is scheme, host and path only: the
+// user info of the URL (the only secret-bearing part) does not enter it.
+//@ axiom !secret("://") && !secret("/")
+//@ func buildShortURL
+//@ property C19
+//@ requires u != nil && !secret(u.Scheme) && !secret(u.Host) && !secret(u.Path)
+//@ pure
+//@ ensures !secret(result)
